@@ -1301,6 +1301,129 @@ def rule_r10(chk, prog, cg):
                  nontrivial=False)
 
 
+# -------------------------------------------------------------------- R11
+NONE_INTOLERANT_CALLS = ('list', 'tuple', 'sorted', 'len', 'sum', 'any',
+                         'all', 'map', 'zip', 'enumerate', 'reversed',
+                         'set', 'iter', 'min', 'max')
+
+
+def _may_return_none(f):
+    """Some path of f returns a value and some path returns None (bare
+    return, ``return None`` or falling off the end)."""
+    if any(isinstance(x, (ast.Yield, ast.YieldFrom))
+           for x in walk_no_nested(f)):
+        return None
+    rets = [r for r in walk_no_nested(f) if isinstance(r, ast.Return)]
+    vals = [r for r in rets if r.value is not None and not (
+        isinstance(r.value, ast.Constant) and r.value.value is None)]
+    nones = [r for r in rets if r not in vals]
+    if not vals:
+        return None
+    if nones:
+        return nones[0]
+    cfg = cfg_of(f)
+    for n in cfg.nodes:
+        for e in n.succ:
+            if e.dst is cfg.exit and e.kind != 'exc' and not (
+                    n.kind == 'stmt' and isinstance(
+                        n.ast, (ast.Return, ast.Raise))):
+                return n.ast
+    return None
+
+
+def _none_intolerant_use(x):
+    """How the expression node x is consumed, if a None there raises."""
+    p = getattr(x, '_parent', None)
+    if isinstance(p, (ast.For, ast.comprehension)) and p.iter is x:
+        return 'iterated'
+    if isinstance(p, ast.Call) and x in p.args:
+        nm = call_name(p) or ''
+        if nm in NONE_INTOLERANT_CALLS:
+            return f'passed to {nm}()'
+        if isinstance(p.func, ast.Attribute) and p.func.attr in (
+                'extend', 'join', 'update', 'writelines'):
+            return f'passed to .{p.func.attr}()'
+    if isinstance(p, ast.Subscript) and p.value is x:
+        return 'subscripted'
+    if isinstance(p, ast.Attribute) and p.value is x:
+        return f'dereferenced (.{p.attr})'
+    if isinstance(p, ast.Starred):
+        return 'unpacked with *'
+    if isinstance(p, ast.BinOp) and isinstance(p.op, ast.Add):
+        return 'concatenated'
+    if isinstance(p, ast.Compare) and x in p.comparators and any(
+            isinstance(o, (ast.In, ast.NotIn)) for o in p.ops):
+        return 'searched with "in"'
+    return None
+
+
+def rule_r11(chk, prog, cg):
+    chk.rule('C04.R11', 'a function that returns None on some path and a '
+             'value on another has no caller that consumes the result as a '
+             'sequence / object without testing it')
+    mixed = {}
+    for (mn, q), (m, f) in cg.funcs.items():
+        if 'tests' in m.rel():
+            continue
+        w = _may_return_none(f)
+        if w is not None:
+            mixed[(mn, q)] = (m, f, w)
+    n = 0
+    for e in cg.edges:
+        if e.callee not in mixed or e.kind in ('pool', ):
+            continue
+        cm, cf_, why = mixed[e.callee]
+        call = e.call
+        m = e.mod
+        fn = _fn(call)
+        n += 1
+        use = _none_intolerant_use(call)
+        site = call
+        if use is None:
+            par = getattr(call, '_parent', None)
+            if isinstance(par, ast.Assign) and len(
+                    par.targets) == 1 and isinstance(
+                        par.targets[0], ast.Name) and fn is not None:
+                v = par.targets[0].id
+                for u in walk_no_nested(fn):
+                    if isinstance(u, ast.Name) and u.id == v and isinstance(
+                            u.ctx, ast.Load):
+                        k = _none_intolerant_use(u)
+                        if k is None:
+                            continue
+                        facts = facts_at(fn, u)
+                        tested = any(
+                            (t == v and pol) or (t == f'{v} is None'
+                                                 and not pol)
+                            or (t == f'{v} is not None' and pol)
+                            or (t == f'not {v}' and not pol)
+                            for (t, pol) in facts)
+                        # another binding may reach the use
+                        others = [s_ for s_ in walk_no_nested(fn)
+                                  if isinstance(s_, ast.Assign)
+                                  and s_ is not par and any(
+                                      isinstance(t_, ast.Name)
+                                      and t_.id == v for t_ in s_.targets)]
+                        if not tested and not others:
+                            use, site = k, u
+                            break
+        if use is None:
+            continue
+        chk.check('C04.R11', f'{m.name}.{fn._qualname if fn else "?"}',
+                  site, False,
+                  f'the result of {e.callee[0]}.{e.callee[1]}() is {use}, '
+                  f'but that function returns None on some path (line '
+                  f'{getattr(why, "lineno", "?")}: '
+                  f'"{unparse(why)[:40]}"): TypeError/AttributeError in the '
+                  'main process, outside every per-mutator guard',
+                  loc=m.loc(site), nontrivial=True)
+    chk.instance('C04.R11', 'package', f'{len(mixed)} functions with mixed '
+                 f'returns, {n} call sites examined', True,
+                 sorted(f'{a}.{b}' for (a, b) in mixed)[:8],
+                 nontrivial=False)
+    chk.floor('C04.R11', 'call sites of mixed-return functions', n, 3)
+
+
 def run(tier):
     prog = Program()
     chk = Check(
@@ -1340,6 +1463,7 @@ def run(tier):
     chk.guard(rule_r8, chk, prog)
     chk.guard(rule_r9, chk, prog)
     chk.guard(rule_r10, chk, prog, cg)
+    chk.guard(rule_r11, chk, prog, cg)
     # an interrupt must reach main()'s handler (status 1): shared with C06.R3
     from . import c06
     sub = Check('C06', 'other', tier, [], [])
